@@ -455,3 +455,13 @@ class c14_item_step:
             return Item(val.source, val.payload + "+", val.size)
         finally:
             emit(self.log, ev="finish", key=key, step=0, name="c14_item_step", pid=os.getpid(), t=time.monotonic())
+
+
+# --- a plain function for cogent3.util.parallel called on its own ------------------------------------------------------
+
+
+def par_task(x, nap=True):
+    """(input, a value derived from it); every 5th input takes a little longer"""
+    if nap and x % 5 == 0:
+        time.sleep(0.03)
+    return (x, x * x + 1)
